@@ -262,8 +262,8 @@ func VX_C01_persist() {
 		w1, s1 := vx.FrozenWrites(), vx.SharedWrites()
 		vx.Thaw()
 		if strict {
-			vx.Check(w1 == w0, "no store into memory that existed before the call ("+op+")")
-			vx.Check(s1 == s0, "no mutation of package-level or other process-wide state ("+op+")")
+			vx.Check(w1 == w0, "monitor: no store into memory that existed before the call ("+op+")")
+			vx.Check(s1 == s0, "monitor: no mutation of package-level or other process-wide state ("+op+")")
 		}
 		now, _ := g0.QFrames()
 		vx.Check(len(now) == len(g0frames), "earlier Grouper: same number of groups")
